@@ -73,6 +73,26 @@ prop('C03',
          level_text='Generated layouts with value/pointer embedding, duplicate names and types across depths and tags, checked entry by entry against an independently computed listing and against the compiler\'s own field addresses.',
          level_note='finite type universe; recursive types excluded'))
 
+prop('C04',
+     level='exploration',
+     rule=('generated: shapes rich in named nested struct fields (to depth 3, the inner structs themselves using value/pointer embedding, tags and unexported names) with requests: Join chains of 2..4 lenses derived by name, depth 3 in both associations, inner foci '
+           'promoted from embedded structs; BiMap with mutually inverse pairs (x <-> x+k on every int class, byte reversal on string classes); BiMapS/B/I/F between a field type and a view type of the same class (named <-> underlying, other widths) by name and by type, view values drawn from the range on which the conversions are inverse; '
+           'Getter and Setter with drawn conversions; ForShape2..9 by name over distinct leaf fields of mixed types; NewLensM over map[string]int and a named map type with keys present/absent; Iso and Morphism between each shape and the next one over lists of 1..6 isos with nil entries and repeated entries; '
+           'oracle: byte images of the canary-guarded arenas of BOTH structures predicted with plain selector assignments: Join obeys the three laws at &p.a.b.c and nothing else changes (padding inside the intermediate structs is exempt); BiMap*: stored value = cmap(b), Get = fmap(field), laws on the converted value; '
+           'Getter never writes; Setter writes f(b) and reads the zero value; ShapeN Get = the N selector reads, Put = exactly N selector writes in positional order; map lens: model map, same identity; Forward: target foci := source foci, Inverse after scrambling the source foci restores them, every other byte of both arenas unchanged; '
+           'non-trivial = Join depth >= 3 or through a promoted field, a view type different from the field type, ShapeN over >= 2 different types, Morphism with >= 2 distinct isos and >= 1 nil; distinct = different (shapes, request)'),
+     assumptions=E1_ASSUME + ['ShapeN never names the same field twice; distinct isos of a Morphism have distinct, non-overlapping target foci; nil maps are not passed to a map lens',
+                              'values written through converting lenses are compared semantically (a conversion may allocate), everything around them byte by byte'],
+     parts=[
+         dict(name='compose', engine='E1', kind='gen', gen='compose', pkg='gen', test='TestShapes',
+              quick=dict(shapes=10, pkgs=4, draws=25), thorough=dict(shapes=30, pkgs=32, draws=100, timeout=3000)),
+     ],
+     manifest=dict(
+         engine='E1', design_ref='3/E1, 4/C04',
+         technique='property-based testing over generated programs: composed optics (Join/BiMap*/Getter/Setter/ShapeN/map lens/Iso/Morphism) on generated nested layouts, both structures held to byte-image predictions made with plain selector assignments',
+         level_text='Compositions are generated over generated layouts and nesting depths; the frame condition is checked on the whole memory of both structures, so a composite that writes the wrong nested field, swaps two same-typed components or skips an iso behind a nil shows as a byte difference.',
+         level_note='finite type universe; conversion pairs come from small families'))
+
 prop('C05',
      level='exploration',
      rule=('generated: stage (Map pure/lift/try, FMap, Filter, Take with n in {0, <len, =len, >len}, TakeWhile, Partition, Fold with a non-commutative monoid and '
